@@ -2,7 +2,7 @@
    The prefix tests (slice length, literal, class) and the guards are REGENERATED (Gen/Misc.v); this file is
    their semantics over real strings, with the external calls a successful construction makes. *)
 From Coq Require Import String.
-From PS Require Import Base.Bytes Base.Result Model.Command Model.Enum Model.Exec Gen.Tables Gen.Misc.
+From PS Require Import Base.Bytes Base.Result Model.Command Model.Enum Model.Exec Model.Sx Gen.Tables Gen.Misc.
 Open Scope string_scope.
 
 Record config := mkCfg { has_sgio : bool; has_iscsi : bool }.
@@ -21,14 +21,28 @@ Definition slice_eq (n : nat) (lit s : string) : bool := String.eqb (String.subs
 Definition guard_passes (g : option (nat * string)) (flag : bool) (dev : string) : bool :=
   match g with Some (n, lit) => flag && slice_eq n lit dev | None => false end.
 
+(* the name the binding is opened on: the constructor stores its `device` parameter, unmodified, in the attribute open()
+   hands to the binding, and nothing else stores to that attribute (stores and open() argument REGENERATED) *)
+Definition name_flow_ok (flow : list (string * string * sx) * sx) : bool :=
+  match snd flow with
+  | SxAttr a =>
+      match filter (fun e => match e with (_, attr, _) => String.eqb attr a || String.eqb attr "?" end) (fst flow) with
+      | [(f, _, SxParam p)] => String.eqb f "__init__" && String.eqb p "device"
+      | _ => false
+      end
+  | _ => false
+  end.
+Definition opened_name (flow : list (string * string * sx) * sx) (dev : string) : string :=
+  if name_flow_ok flow then dev else "<not the requested name>".
+
 Definition new_scsi_device (cfg : config) (dev : string) (rw : bool) : result (devclass * list extcall) :=
   if guard_passes scsi_device_guard (has_sgio cfg) dev
-  then Ok (DSCSIDevice, [COpen dev (if rw then "w+b" else "rb")])
+  then Ok (DSCSIDevice, [COpen (opened_name scsi_device_name_flow dev) (if rw then "w+b" else "rb")])
   else Raise NotImplementedError.
 
 Definition new_iscsi_device (cfg : config) (dev iname : string) : result (devclass * list extcall) :=
   if guard_passes iscsi_device_guard (has_iscsi cfg) dev
-  then Ok (DISCSIDevice, [CContext (if Nat.eqb (String.length iname) 0 then dev else iname); CUrl dev; CConnect])
+  then Ok (DISCSIDevice, [CContext (if Nat.eqb (String.length iname) 0 then dev else iname); CUrl (opened_name iscsi_device_name_flow dev); CConnect])
   else Raise NotImplementedError.
 
 Fixpoint dispatch (rows : list (nat * string * string)) (cfg : config) (dev : string) (rw : bool) (iname : string)
